@@ -415,15 +415,7 @@ fn pure_op(op: &str, args: &[&str]) -> Resp {
         "dtls_header" => p1!(parse_dtls_record_header),
         "dtls_record" => p1!(parse_dtls_plaintext_record),
         "dtls_records" => p1!(parse_dtls_plaintext_records),
-        "dtls_hs" => {
-            nargs(args, 1)?;
-            let b = parse_h(args[0])?;
-            Ok(run(
-                &b,
-                |i| parse_dtls_message_handshake(i),
-                |m: &DTLSMessage, c: &mut Ctx, o: &mut String| render::r_dtls_wrapped(m, c, o),
-            ))
-        }
+        "dtls_hs" => p1!(parse_dtls_message_handshake),
         "dtls_ccs" => p1!(parse_dtls_message_changecipherspec),
         "dtls_alert" => p1!(parse_dtls_message_alert),
         "dtls_rec_with_hdr" => {
@@ -436,13 +428,7 @@ fn pure_op(op: &str, args: &[&str]) -> Resp {
                 length: num_u16(args[2])?,
             };
             let b = parse_h(args[3])?;
-            Ok(run(
-                &b,
-                |i| parse_dtls_record_with_header(i, &hdr),
-                |v: &Vec<DTLSMessage>, c: &mut Ctx, o: &mut String| {
-                    render::r_dtls_wrapped_list(v, c, o)
-                },
-            ))
+            Ok(run(&b, |i| parse_dtls_record_with_header(i, &hdr), R::r))
         }
         _ => {
             if let Some(name) = op.strip_prefix("ext_tag_") {
@@ -675,9 +661,7 @@ fn observe_step(
 }
 
 fn rp_op(args: &[&str]) -> Resp {
-    if args.is_empty() {
-        return Err(Fail::Bad);
-    }
+    // no step at all: empty result (nothing was observed)
     let mut steps = Vec::with_capacity(args.len());
     for a in args {
         steps.push(parse_step(a)?);
@@ -1120,20 +1104,21 @@ fn main() {
     }
     let stdin = io::stdin();
     let mut inp = io::BufReader::with_capacity(1 << 20, stdin.lock());
-    let mut line = String::new();
+    let mut line: Vec<u8> = Vec::new();
     loop {
         line.clear();
-        match inp.read_line(&mut line) {
+        match inp.read_until(b'\n', &mut line) {
             Ok(0) => break,
             Ok(_) => {}
-            Err(_) => {
-                // not UTF-8 / read error: answer once and stop
-                let _ = out.write_all(b"badrequest\n");
-                break;
-            }
+            Err(_) => break,
         }
-        let l = line.trim_end_matches(|c| c == '\n' || c == '\r');
-        let resp = handle(l);
+        while matches!(line.last(), Some(b'\n') | Some(b'\r')) {
+            line.pop();
+        }
+        let resp = match std::str::from_utf8(&line) {
+            Ok(l) if l.is_ascii() => handle(l),
+            _ => "badrequest".to_string(),
+        };
         if out.write_all(resp.as_bytes()).is_err() || out.write_all(b"\n").is_err() {
             break;
         }
